@@ -727,7 +727,7 @@ template<typename F> void write_values(Obj& Y, F&& f)
 }
 
 // ------------------------------------------------------------------------------------------------ start states
-struct Start { int node; Index m, n; u64 pattern; bool default_ctor; int va = 0; }; // pattern over native blocks for BCSR; va = value alphabet
+struct Start { int node; Index m, n; u64 pattern; bool default_ctor; int va = 0; int how = 0; /* 1: allocating ctor (rows, cols, used[, used_rows]) + arrays filled in place */ }; // pattern over native blocks for BCSR; va = value alphabet
 
 static double pos_value(Index i, Index j) { return (((i + j) & 1) ? -1.0 : 1.0) * double(1 + 8 * i + j) / 4.0; }
 /// value alphabets: 0 = distinct exact dyadics with alternating sign; 1 = special values (stored exact zero, -0, +-1, values that
@@ -754,9 +754,31 @@ static Model start_model(const Start& s)
 }
 
 /// builds the start container from harness-owned arrays (constructor taking the three arrays)
+/// "allocated but empty" constructors (rows, cols, used_elements[, used_rows]); the arrays are then filled in place
+static ObjP build_object_alloc(const Model& M)
+{
+  const Lay L = expected(M);
+  ObjP R;
+  auto fill = [&](auto& mat)
+  {
+    for(size_t a = 0; a < L.el.size(); ++a) for(size_t i = 0; i < L.el[a].size(); ++i) mat._elements.at(a)[i] = typename std::remove_reference<decltype(mat._elements.at(a)[i])>::type(L.el[a][i]);
+    for(size_t a = 0; a < L.ix.size(); ++a) for(size_t i = 0; i < L.ix[a].size(); ++i) mat._indices.at(a)[i] = typename std::remove_reference<decltype(mat._indices.at(a)[i])>::type(L.ix[a][i]);
+  };
+  if(M.node == N_CSR_D64) { auto y = std::make_unique<ObjT<N_CSR_D64>>(); y->mat = SparseMatrixCSR<double, u64>(M.m, M.n, M.nnz()); fill(y->mat); R = std::move(y); }
+  else if(M.node == N_B23_D64) { auto y = std::make_unique<ObjT<N_B23_D64>>(); y->mat = SparseMatrixBCSR<double, u64, 2, 3>(M.m / 2, M.n / 3, L.si[3]); fill(y->mat); R = std::move(y); }
+  else if(M.node == N_CSCR_D64) { auto y = std::make_unique<ObjT<N_CSCR_D64>>(); y->mat = SparseMatrixCSCR<double, u64>(M.m, M.n, L.si[3], L.si[4]); fill(y->mat); R = std::move(y); }
+  return R;
+}
+
 static ObjP start_object(const Start& s, const Model& M)
 {
   const Lay L = expected(M);
+  if(s.node == N_CSCR_D64)
+  {
+    if(M.nnz() == 0) { auto y = std::make_unique<ObjT<N_CSCR_D64>>(); y->mat = SparseMatrixCSCR<double, u64>(s.m, s.n); return y; }
+    return s.how == 1 ? build_object_alloc(M) : build_object(M);
+  }
+  if(s.how == 1 && M.nnz() > 0) return build_object_alloc(M);
   if(s.node == N_CSR_D64)
   {
     auto y = std::make_unique<ObjT<N_CSR_D64>>();
@@ -791,6 +813,7 @@ static std::string start_desc(const Start& s)
   std::ostringstream o;
   o << node_name[s.node] << " " << s.m << "x" << s.n;
   if(s.va) o << (s.va == 1 ? " values=special(0,-0,+-1,1e30,-1e-30,0.1,3e38,1e-40,-1/3)" : " values=all-negative");
+  if(s.how == 1) o << " built with the allocating constructor";
   if(s.default_ctor) o << " default-constructed";
   else if(node_fmt[s.node] != F_DENSE)
   {
@@ -1613,6 +1636,23 @@ int main(int argc, char** argv)
     for(Index bm = 1; bm <= 2; ++bm) for(Index bn = 1; bn <= 2; ++bn)
       for(u64 p = 0; p < (u64(1) << (bm * bn)); ++p) starts.push_back(Start{N_B23_D64, bm * 2, bn * 3, p, false});
     starts.push_back(Start{N_B23_D64, 6, 15, 0, false});
+    // containers made by the allocating constructors (rows, cols, used[, used_rows]) and filled in place; CSCR start states
+    // (array ctor, allocating ctor, entry-free ctor) incl. patterns with unused rows
+    for(Index m = 1; m <= 3; ++m) for(Index n = 1; n <= 3; ++n)
+    {
+      const u64 full = (u64(1) << (m * n)) - 1;
+      u64 checker = 0, lower = 0, lastrow = 0;
+      for(Index i = 0; i < m; ++i) for(Index j = 0; j < n; ++j) { if(((i + j) & 1) == 0) checker |= u64(1) << (i * n + j); if(j <= i) lower |= u64(1) << (i * n + j); if(i + 1 == m) lastrow |= u64(1) << (i * n + j); }
+      std::set<u64> ps = {full, checker, lower, lastrow};
+      for(u64 q : ps)
+      {
+        Start a{N_CSR_D64, m, n, q, false}; a.how = 1; starts.push_back(a);
+        Start b{N_CSCR_D64, m, n, q, false}; starts.push_back(b);
+        Start d{N_CSCR_D64, m, n, q, false}; d.how = 1; starts.push_back(d);
+      }
+      starts.push_back(Start{N_CSCR_D64, m, n, 0, false});
+    }
+    { Start a{N_B23_D64, 4, 6, 9, false}; a.how = 1; starts.push_back(a); Start b{N_B23_D64, 4, 6, 15, false}; b.how = 1; starts.push_back(b); }
     // value alphabets 1 (special values) and 2 (all negative) on a few patterns of every shape
     for(int va = 1; va <= 2; ++va)
     {
@@ -1647,7 +1687,7 @@ int main(int argc, char** argv)
       S.derived_depth = c.thorough ? 2 : 1;
       S.run(depth);
       const Model M = start_model(s);
-      if(M.nnz() > 0) c.nontrivial(verif::Hash().pod(s.node).pod(s.m).pod(s.n).pod(s.pattern).pod(s.va).get());
+      if(M.nnz() > 0) c.nontrivial(verif::Hash().pod(s.node).pod(s.m).pod(s.n).pod(s.pattern).pod(s.va).pod(s.how).get());
       c.count("bfs_cases");
     }
   });
